@@ -477,6 +477,24 @@ def _check_script(buf, ops, out_lines):
                     return "word(): %s offset %d->%d, expected Ok(%d)" % (res, off, noff, _le32(buf, off))
                 if limit is not None:
                     limit -= 1
+        elif op.startswith("ws:"):
+            # words(k): k raw-word requests, stopping at the first failure (the words read before it stay consumed)
+            k, vals, o2, exp = int(op[3:]), [], off, None
+            for _ in range(k):
+                if limit == 0:
+                    exp = "Err(LimitReached(%d))" % o2
+                    break
+                if limit is not None:
+                    limit -= 1
+                if o2 + 4 > len(buf):
+                    exp = "Err(StreamExpected(%d))" % o2
+                    break
+                vals.append(_le32(buf, o2))
+                o2 += 4
+            if exp is None:
+                exp = "Ok([%s])" % ", ".join(str(v) for v in vals)
+            if res != exp or noff != o2:
+                return "words(%d): %s offset %d->%d, expected %s and offset %d" % (k, res, off, noff, exp, o2)
         elif op == "s":
             # C11: the NUL-terminated string at the offset, whole words, never past the limit or the buffer
             if limit is not None and limit * 4 <= len(buf) - off:
@@ -541,6 +559,7 @@ def witness(failure, ctx):
         bufs.append(([0x6f, 0x6b, 0, 0x58, 0x72, 0x75, 0x73, 0x74, 0, 0, 0, 0])[:n])
     bufs.append([0x6f, 0x6b, 0, 0x58, 0x72, 0x75, 0x73, 0x74, 0, 0, 0, 0])
     bufs.append([0x6f, 0x6b, 0, 0x58, 0x72, 0x75, 0x73, 0x74, 0x21, 0x21, 0x21, 0])
+    bufs.append(list(range(1, 17)))
     seen, uniq = set(), []
     for b in bufs:
         if tuple(b) not in seen:
@@ -548,7 +567,7 @@ def witness(failure, ctx):
             uniq.append(b)
     lims = [[], ["lim:0"], ["lim:1"], ["lim:2"], ["lim:3"], ["lim:4611686018427387904"], ["lim:18446744073709551615"]]
     seqs = [["w"], ["s"], ["s", "s"], ["w", "s"], ["b64"], ["s", "w"], ["w", "w", "w"], ["source_language"],
-            ["image_operands", "s"], ["s", "clr", "s"], ["ws:2", "s"]]
+            ["image_operands", "s"], ["s", "clr", "s"], ["ws:2", "s"], ["ws:1", "w", "w"], ["ws:2", "w"], ["ws:3"], ["w", "ws:1", "w"]]
     tried = 0
     for b in uniq:
         hexs = "".join("%02x" % x for x in b) or ""
@@ -561,7 +580,7 @@ def witness(failure, ctx):
                 tried += 1
                 lines = [l for l in p.stdout.splitlines() if l.strip()]
                 d = _check_script(b, [o for o in ops], lines)
-                if d and "ws:" not in " ".join(ops):
+                if d:
                     return {"found": True, "exhaustive": False,
                             "input": {"bytes_hex": hexs, "requests": ops}, "observed": lines, "disagreement": d,
                             "how": "vreplay decoder-script on the real Decoder, scripts tried: %d" % tried}
